@@ -8,6 +8,11 @@ COQ = os.path.join(VERIF, "coq")
 SCRATCH_ROOT = "/var/tmp/qedverif"
 GOENV = dict(os.environ, GOFLAGS="-mod=mod", GOPROXY="off", GOSUMDB="off", GOTOOLCHAIN="local",
              CGO_ENABLED="1")
+# development aid: VERIF_COVER=<dir> builds the harness binaries with coverage instrumentation of the project's
+# packages and collects the counters there (go tool covdata func -i <dir>); never set by a registered command
+if os.environ.get("VERIF_COVER"):
+    os.makedirs(os.environ["VERIF_COVER"], exist_ok=True)
+    GOENV["GOCOVERDIR"] = os.environ["VERIF_COVER"]
 FORBIDDEN = r"\b(Admitted|admit|Axiom|Axioms|Parameter|Parameters|Conjecture|Conjectures|Admit Obligations|Unset Guard Checking|Unset Positivity Checking|Unset Universe Checking|bypass_check|type-in-type|impredicative-set|native_compute)\b"
 
 
@@ -158,7 +163,8 @@ class Scratch:
     def build(self, pkg, race=False):
         """go build ./<pkg> in the harness module, hooks on (-tags verif). Returns (binary|None, log)."""
         out_bin = os.path.join(self.dir, "bin_" + pkg.replace("/", "_") + ("_race" if race else ""))
-        cmd = ["go", "build", "-trimpath", "-tags", "verif"] + (["-race"] if race else []) + ["-o", out_bin, "./" + pkg]
+        cover = ["-cover", "-coverpkg=github.com/bbva/qed/..."] if os.environ.get("VERIF_COVER") else []
+        cmd = ["go", "build", "-trimpath", "-tags", "verif"] + cover + (["-race"] if race else []) + ["-o", out_bin, "./" + pkg]
         rc, out, _ = sh(cmd, cwd=self.h, env=GOENV, timeout=1500)
         return (out_bin if rc == 0 else None), out
 
